@@ -719,8 +719,15 @@ def make_guards(idx, fi):
             if a and b:
                 f = max if e.func.id == 'max' else min
                 return lambda w: f(a(w), b(w))
+        if isinstance(e, ast.IfExp):
+            a, b = term(e.body), term(e.orelse)
+            if a and b:
+                test = e.test
+                return lambda w: a(w) if holder['g'].compile(nf.canon(test))(w) else b(w)
         return None
-    return X.Guards(atom, term)
+    holder = {}
+    holder['g'] = X.Guards(atom, term)
+    return holder['g']
 
 
 def classify_leaf(p):
@@ -1041,6 +1048,8 @@ MUTANTS = [
     Mutant('min-words-inclusive', SGF, "            if words < self.config['min_words']:", "            if words <= self.config['min_words']:", 'D34'),
     Mutant('nonempty-not-enforced', SGF, "        if self.config['accept_nonempty'] and min_length == 0:\n            min_length = 1\n", "", 'D34'),
     Mutant('nonempty-lowers-min-length', SGF, "        if self.config['accept_nonempty'] and min_length == 0:", "        if self.config['accept_nonempty']:", 'D34'),
+    Mutant('nonempty-replaces-min-length', SGF, "        min_length = self.config['min_length']\n        if self.config['accept_nonempty'] and min_length == 0:\n            min_length = 1\n",
+           "        min_length = 1 if self.config['accept_nonempty'] else self.config['min_length']\n", 'D34'),
     Mutant('char-message-wins', SGF, _MIN_BLOCKS, _MIN_BLOCKS_SWAPPED, 'D34'),
     Mutant('words-split-on-single-space', SGF, "            words = len(student.split())", "            words = len(student.split(' '))", 'D4'),
     Mutant('length-of-raw-input', SGF, "            chars = len(student)", "            chars = len(student_input)", 'D2'),
@@ -1067,6 +1076,8 @@ BENIGN = [
     Benign('collapse-two-or-more', SGF, "re.sub(r' +', ' ', cleaned)", "re.sub(r' {2,}', ' ', cleaned)"),
     Benign('collapse-by-loop', SGF, "            cleaned = re.sub(r' +', ' ', cleaned)\n", "            while '  ' in cleaned:\n                cleaned = cleaned.replace('  ', ' ')\n"),
     Benign('strip-all-else-clean-spaces', SGF, "        if self.config['clean_spaces']:\n            cleaned = re.sub", "        elif self.config['clean_spaces']:\n            cleaned = re.sub"),
+    Benign('nonempty-by-conditional-expression', SGF, "        min_length = self.config['min_length']\n        if self.config['accept_nonempty'] and min_length == 0:\n            min_length = 1\n",
+           "        min_length = max(self.config['min_length'], 1 if self.config['accept_nonempty'] else 0)\n"),
     Benign('nonempty-by-max', SGF, "        if self.config['accept_nonempty'] and min_length == 0:\n            min_length = 1\n",
            "        if self.config['accept_nonempty']:\n            min_length = max(min_length, 1)\n"),
     Benign('case-fold-first', SGF, "        cleaned = str(input)\n", "        cleaned = str(input)\n        if not self.config['case_sensitive']:\n            cleaned = cleaned.lower()\n"),
